@@ -52,33 +52,33 @@ const (
 )
 
 type Violation struct {
-	What   string            // assertion label / panic description
-	Site   string            // function where it arose
-	Model  map[string]uint64 // values of all nondet symbols
-	Trace  []string          // decision trace
-	Stack  []string
-	Notes  []string
+	What  string            // assertion label / panic description
+	Site  string            // function where it arose
+	Model map[string]uint64 // values of all nondet symbols
+	Trace []string          // decision trace
+	Stack []string
+	Notes []string
 }
 
 // Path is the state of one execution.
 type Path struct {
-	w       *Worker
-	prefix  []Decision
-	pos     int
-	trace   []Decision
-	symbols []*smt.Term
-	symByName map[string]*smt.Term
-	nameCtr map[string]int
+	w            *Worker
+	prefix       []Decision
+	pos          int
+	trace        []Decision
+	symbols      []*smt.Term
+	symByName    map[string]*smt.Term
+	nameCtr      map[string]int
 	cmodel       smt.Model         // concolic model: satisfies the asserted path condition (nil = unknown)
 	pendingModel map[string]uint64 // model valid at the end of the replayed prefix
-	extra   map[string]uint64 // harness-level choices (verifrt.Choose), part of every model
-	dom       map[string]domain
-	entangled map[string]bool
+	extra        map[string]uint64 // harness-level choices (verifrt.Choose), part of every model
+	dom          map[string]domain
+	entangled    map[string]bool
 	allEntangled bool
-	svCache   map[int64]*svInfo
-	decided map[int64]bool // outcome of branch terms already decided on this path
-	hasDecided map[int64]bool
-	instrs  int64
+	svCache      map[int64]*svInfo
+	decided      map[int64]bool // outcome of branch terms already decided on this path
+	hasDecided   map[int64]bool
+	instrs       int64
 
 	Outcome    Outcome
 	Why        string
